@@ -66,6 +66,12 @@ def reads_processed_lock_file_name(dump_filename, chr_id):
     return "{}_processed".format(chr_dump_file)
 
 
+def processing_state_file_prefix(sample, dump_filename):
+    # markers and statistics of the processing stage belong to the run that writes them: saved read assignments
+    # may be located in the folder of another run (--read_assignments) and may be used by several runs
+    return os.path.join(sample.aux_dir, os.path.basename(dump_filename))
+
+
 def read_group_lock_filename(sample):
     return sample.read_group_file + "_lock"
 
@@ -246,9 +252,10 @@ def construct_models_in_parallel(sample, chr_id, dump_filename, args, read_group
         list_size = read_int(multimap_loader)
 
     chr_dump_file = dump_filename + "_" + chr_id
-    lock_file = reads_processed_lock_file_name(dump_filename, chr_id)
-    read_stat_file = "{}_read_stat".format(chr_dump_file)
-    transcript_stat_file = "{}_transcript_stat".format(chr_dump_file)
+    state_file_prefix = processing_state_file_prefix(sample, dump_filename)
+    lock_file = reads_processed_lock_file_name(state_file_prefix, chr_id)
+    read_stat_file = "{}_{}_read_stat".format(state_file_prefix, chr_id)
+    transcript_stat_file = "{}_{}_transcript_stat".format(state_file_prefix, chr_id)
 
     if os.path.exists(lock_file) and args.resume:
         logger.info("Processed assignments from chromosome " + chr_id + " detected")
@@ -762,7 +769,7 @@ class DatasetProcessor:
                     transcript_stat_counter.stats_dict[k] += v
 
         # per-chromosome results are consumed below: from now on an interrupted run has to recompute them on --resume
-        clean_locks(chr_ids, dump_filename, reads_processed_lock_file_name)
+        clean_locks(chr_ids, processing_state_file_prefix(sample, dump_filename), reads_processed_lock_file_name)
 
         if not self.args.no_model_construction:
             self.merge_transcript_models(sample.prefix, aggregator, chr_ids, gff_printer)
